@@ -161,44 +161,54 @@ def handleStop (st : ServerState ν) (req : Request) : ServerState ν × Reply :
 /-- `std::chrono::seconds(uint64)`: the value reinterpreted as `int64` -/
 def secondsOfU64 (n : Nat) : Int := if n < 9223372036854775808 then n else (n : Int) - 18446744073709551616
 
+/-- the rest of `handle_store` once the request has passed the rate limiter: proof of work, then
+    `node.store_chunk` -/
+def storeAdmitted (now : Int) (ident : Identity) (st : ServerState ν) (req : Request) (ttl : Int) : ServerState ν × Reply :=
+  let hint : Option Bytes := (getField req.fields (ascii "PATH")).bind Pow.sanitizeFilenameHint
+  let work : Pow.StoreFields := { chunkId := sha req.payload, payloadSize := req.payload.length, filenameHint := hint.getD [] }
+  let powFail (plain : String) : ServerState ν × Reply :=
+    let f := notePowFailure now (st.powFailures ident)
+    ({ st with powFailures := setHist st.powFailures ident f.2 }, err (if f.1 then "ERR_STORE_POW_LOCKED" else plain))
+  let accept : ServerState ν × Reply :=
+    ({ st with powFailures := setHist st.powFailures ident [], node := ops.store st.node req.payload ttl hint },
+     { success := true, code := "OK_STORE", stored := some (req.payload, ttl, hint) })
+  if cfg.powDifficulty > 0 then
+    match getField req.fields (ascii "STORE-POW") with
+    | none => powFail "ERR_STORE_POW_REQUIRED"
+    | some v =>
+      match parseU64 v with
+      | none => powFail "ERR_STORE_POW_INVALID"
+      | some nonce =>
+        if Pow.storePowValid sha work nonce cfg.powDifficulty then accept else powFail "ERR_STORE_POW_INVALID"
+  else accept
+
+/-- the TTL of a STORE request: the TTL header (decimal `uint64`, reinterpreted as `int64` seconds) or
+    the configured default; `none` = ERR_STORE_TTL_INVALID -/
+def requestTtl (req : Request) : Option Int :=
+  match getField req.fields (ascii "TTL") with
+  | none => some cfg.defaultTtl
+  | some v => (parseU64 v).map secondsOfU64
+
+/-- `ttl < min_ttl || ttl > max_ttl` -/
+def ttlOutOfRange (ttl : Int) : Bool :=
+  cmpGt Gen.C28.ttlLowStrict cfg.minTtl ttl || cmpGt Gen.C28.ttlHighStrict ttl cfg.maxTtl
+
 /-- `handle_store` -/
 def handleStore (now : Int) (addr : Bytes) (st : ServerState ν) (req : Request) : ServerState ν × Reply :=
   if checkToken cfg req.fields ≠ .ok then (st, err "ERR_STORE_UNAUTHENTICATED")
   else if !req.payloadHeaderPresent then (st, err "ERR_STORE_PAYLOAD_REQUIRED")
   else if req.payload.length > cfg.cap then (st, err "ERR_STORE_PAYLOAD_TOO_LARGE")
   else
-    let ttl? : Option Int :=
-      match getField req.fields (ascii "TTL") with
-      | none => some cfg.defaultTtl
-      | some v => (parseU64 v).map secondsOfU64
-    match ttl? with
+    match requestTtl cfg req with
     | none => (st, err "ERR_STORE_TTL_INVALID")
     | some ttl =>
-      if cmpGt Gen.C28.ttlLowStrict cfg.minTtl ttl || cmpGt Gen.C28.ttlHighStrict ttl cfg.maxTtl then
-        (st, err "ERR_STORE_TTL_OUT_OF_RANGE")
+      if ttlOutOfRange cfg ttl then (st, err "ERR_STORE_TTL_OUT_OF_RANGE")
       else
         let ident := rateIdentity cfg addr
-        let (allowed, hist) := allowStore now (st.storeHist ident)
-        let st := { st with storeHist := setHist st.storeHist ident hist }
-        if !allowed then (st, err "ERR_STORE_RATE_LIMITED")
-        else
-          let hint : Option Bytes := (getField req.fields (ascii "PATH")).bind Pow.sanitizeFilenameHint
-          let work : Pow.StoreFields := { chunkId := sha req.payload, payloadSize := req.payload.length, filenameHint := hint.getD [] }
-          let powFail (plain : String) : ServerState ν × Reply :=
-            let (locked, h) := notePowFailure now (st.powFailures ident)
-            ({ st with powFailures := setHist st.powFailures ident h }, err (if locked then "ERR_STORE_POW_LOCKED" else plain))
-          let accept : ServerState ν × Reply :=
-            ({ st with powFailures := setHist st.powFailures ident [], node := ops.store st.node req.payload ttl hint },
-             { success := true, code := "OK_STORE", stored := some (req.payload, ttl, hint) })
-          if cfg.powDifficulty > 0 then
-            match getField req.fields (ascii "STORE-POW") with
-            | none => powFail "ERR_STORE_POW_REQUIRED"
-            | some v =>
-              match parseU64 v with
-              | none => powFail "ERR_STORE_POW_INVALID"
-              | some nonce =>
-                if Pow.storePowValid sha work nonce cfg.powDifficulty then accept else powFail "ERR_STORE_POW_INVALID"
-          else accept
+        let lim := allowStore now (st.storeHist ident)
+        let st := { st with storeHist := setHist st.storeHist ident lim.2 }
+        if !lim.1 then (st, err "ERR_STORE_RATE_LIMITED")
+        else storeAdmitted sha ops cfg now ident st req ttl
 
 /-- the STREAM values that select streaming to the client -/
 def streamToClient (fields : Fields) : Bool :=
@@ -207,6 +217,24 @@ def streamToClient (fields : Fields) : Bool :=
   | some v =>
     let mode := toUpper v
     mode == ascii "CLIENT" || mode == ascii "1" || mode == ascii "TRUE" || mode == ascii "YES"
+
+/-- the end of `handle_fetch` once the chunk is at hand: stream it (rate limited) or write it to OUT -/
+def fetchDeliver (now : Int) (addr : Bytes) (st : ServerState ν) (stream : Bool) (out : Option Bytes) (data : Bytes) :
+    ServerState ν × Reply :=
+  if stream then
+    let ident := rateIdentity cfg addr
+    let lim := allowFetch now (st.fetchHist ident)
+    let st := { st with fetchHist := setHist st.fetchHist ident lim.2 }
+    if !lim.1 then (st, err "ERR_FETCH_RATE_LIMITED")
+    else if data.length > cfg.cap then (st, err "ERR_FETCH_PAYLOAD_TOO_LARGE")
+    else (st, { success := true, code := "OK_FETCH", streamed := some data })
+  else
+    match out with
+    | none => (st, err "ERR_FETCH_OUT_REQUIRED")
+    | some path =>
+      match ops.write st.node path data with
+      | none => (st, err "ERR_FETCH_WRITE_FAILED")
+      | some node' => ({ st with node := node' }, { success := true, code := "OK_FETCH", written := some (path, data) })
 
 /-- `handle_fetch` -/
 def handleFetch (now : Int) (addr : Bytes) (st : ServerState ν) (req : Request) : ServerState ν × Reply :=
@@ -228,21 +256,7 @@ def handleFetch (now : Int) (addr : Bytes) (st : ServerState ν) (req : Request)
             let st := { st with node := node' }
             match ops.fetch node' chunk with
             | none => (st, err "ERR_FETCH_CHUNK_MISSING")
-            | some data =>
-              if stream then
-                let ident := rateIdentity cfg addr
-                let (allowed, hist) := allowFetch now (st.fetchHist ident)
-                let st := { st with fetchHist := setHist st.fetchHist ident hist }
-                if !allowed then (st, err "ERR_FETCH_RATE_LIMITED")
-                else if data.length > cfg.cap then (st, err "ERR_FETCH_PAYLOAD_TOO_LARGE")
-                else (st, { success := true, code := "OK_FETCH", streamed := some data })
-              else
-                match out with
-                | none => (st, err "ERR_FETCH_OUT_REQUIRED")
-                | some path =>
-                  match ops.write st.node path data with
-                  | none => (st, err "ERR_FETCH_WRITE_FAILED")
-                  | some node'' => ({ st with node := node'' }, { success := true, code := "OK_FETCH", written := some (path, data) })
+            | some data => fetchDeliver ops cfg now addr st stream out data
 
 /-- the commands that only read state -/
 def readOnlyCode (command : Bytes) : Option String :=
@@ -277,6 +291,44 @@ def handleClient (now : Int) (addr : Bytes) (st : ServerState ν) (input : Bytes
     let (st', r) := handleRequest sha ops cfg now addr st req
     (st', some r)
 
+/-! ## histories -/
+
+/-- what happens to the daemon: the clock advances, or a peer connects and sends bytes -/
+inductive Event where
+  | advance (ns : Nat)
+  | connect (addr input : Bytes)
+deriving Repr
+
+structure LogEntry where
+  time : Int
+  addr : Bytes
+  reply : Option Reply
+deriving Repr
+
+/-- the daemon handling a history of events, connection after connection (one accept thread) -/
+def runEvents : Int → ServerState ν → List LogEntry → List Event → Int × ServerState ν × List LogEntry
+  | now, st, log, [] => (now, st, log)
+  | now, st, log, .advance d :: es => runEvents (now + d) st log es
+  | now, st, log, .connect addr input :: es =>
+    let r := handleClient sha ops cfg now addr st input
+    runEvents now r.1 (log ++ [{ time := now, addr := addr, reply := r.2 }]) es
+
 end
+
+def replyHasCode (code : String) : Option Reply → Bool
+  | some r => r.code == code
+  | none => false
+
+def replyStreamed : Option Reply → Bool
+  | some r => r.code == "OK_FETCH" && r.streamed.isSome
+  | none => false
+
+/-- the instants at which address `a` got a reply with code `code` -/
+def timesOf (log : List LogEntry) (a : Bytes) (code : String) : List Int :=
+  (log.filter fun e => e.addr == a && replyHasCode code e.reply).map (·.time)
+
+/-- the instants at which address `a` got a streamed OK_FETCH -/
+def streamTimesOf (log : List LogEntry) (a : Bytes) : List Int :=
+  (log.filter fun e => e.addr == a && replyStreamed e.reply).map (·.time)
 
 end EphVerif.Control
